@@ -243,6 +243,10 @@ class ScreenScheduler():
 
                 return
 
+        # signals of this screen (e.g. user input) have to be processed by the active event loop
+        # even when the screen was used in other (outer) event loop before
+        self._event_loop.register_signal_source(top_screen.ui_screen)
+
         # get the widget tree from the screen and show it in the screen
         try:
             # refresh screen content
